@@ -21,7 +21,7 @@ open Hv.Data
 
 structure Holds (c : ExpCfg) : Prop where
   claims : ∀ exp now, c.isExpired.eval exp now = expired exp now ∧ c.shift.eval exp now = expired exp now ∧
-    c.select.eval exp now = expired exp now ∧ c.selectCap.eval exp now = expired exp now ∧
+    c.selectCap.eval exp now = expired exp now ∧
     filterLt c.filterGuard0 exp now = expired exp now
   members : ∀ exp, member c.coldBuildNe0 exp = decide (exp ≠ 0) ∧ member c.addBeaconsNe0 exp = decide (exp ≠ 0) ∧
     member c.saveBranchNe0 exp = decide (exp ≠ 0) ∧ member c.reindexNe0 exp = decide (exp ≠ 0) ∧
@@ -35,7 +35,7 @@ structure Holds (c : ExpCfg) : Prop where
 /-- the same, with reply visibility required only for times at or after the epoch -/
 structure HoldsNonneg (c : ExpCfg) : Prop where
   claims : ∀ exp now, c.isExpired.eval exp now = expired exp now ∧ c.shift.eval exp now = expired exp now ∧
-    c.select.eval exp now = expired exp now ∧ c.selectCap.eval exp now = expired exp now ∧
+    c.selectCap.eval exp now = expired exp now ∧
     filterLt c.filterGuard0 exp now = expired exp now
   members : ∀ exp, member c.coldBuildNe0 exp = decide (exp ≠ 0) ∧ member c.addBeaconsNe0 exp = decide (exp ≠ 0) ∧
     member c.saveBranchNe0 exp = decide (exp ≠ 0) ∧ member c.reindexNe0 exp = decide (exp ≠ 0) ∧
@@ -54,11 +54,11 @@ theorem good_fields (c : ExpCfg) (h : c.good = true) : c.isEmptyEq0 = true ∧ c
 /-- **paths_agree, partial form**: good sites ⇒ everything agrees on every time ≥ 0 … -/
 theorem holds_nonneg (c : ExpCfg) (h : c.good = true) : HoldsNonneg c := by
   refine ⟨fun exp now => ?_, fun exp => ?_, ?_, fun exp he => wire_agrees_nonneg _ exp he, reload_exp⟩
-  · obtain ⟨a, b, c', d, e, _⟩ := paths_agree c h exp now
+  · obtain ⟨a, b, d, e, _⟩ := paths_agree c h exp now
+    exact ⟨a, b, d, e⟩
+  · obtain ⟨_, _, _, _, a, b, c', d, e, _⟩ := paths_agree c h exp 0
     exact ⟨a, b, c', d, e⟩
-  · obtain ⟨_, _, _, _, _, a, b, c', d, e, _⟩ := paths_agree c h exp 0
-    exact ⟨a, b, c', d, e⟩
-  · exact (paths_agree c h 0 0).2.2.2.2.2.2.2.2.2.2
+  · exact (paths_agree c h 0 0).2.2.2.2.2.2.2.2.2
 
 /-- … and on ALL times when replies show every non-zero expiry -/
 theorem holds_good (c : ExpCfg) (h : c.good = true) (hw : c.wireGet = .ne0) : Holds c := by
@@ -94,7 +94,6 @@ theorem not_holds_of_not_good (c : ExpCfg) (h : c.good = false) : ¬ Holds c := 
   have g1 := bad _ w0.1 w7.1
   have g2 := bad _ w0.2.1 w7.2.1
   have g3 := bad _ w0.2.2.1 w7.2.2.1
-  have g4 := bad _ w0.2.2.2.1 w7.2.2.2.1
   have memb : ∀ b : Bool, member b 0 = decide ((0 : Int) ≠ 0) → b = true := by
     intro b hb; cases b
     · revert hb; decide
@@ -107,17 +106,17 @@ theorem not_holds_of_not_good (c : ExpCfg) (h : c.good = false) : ¬ Holds c := 
   have fg : c.filterGuard0 = true := by
     cases hf : c.filterGuard0 with
     | true => rfl
-    | false => have := w0.2.2.2.2; rw [hf] at this; revert this; decide
+    | false => have := w0.2.2.2; rw [hf] at this; revert this; decide
   have cw : c.clearWins = true := by
     cases hc : c.clearWins with
     | true => rfl
     | false => rw [hc] at cl; revert cl; decide
-  simp [ExpCfg.good, g1, g2, g3, g4, m1, m2, m3, m4, m5, fg, hi, hz, cw] at h
+  simp [ExpCfg.good, g1, g2, g3, m1, m2, m3, m4, m5, fg, hi, hz, cw] at h
 
 /-! ### witnesses in the request model (closed terms, today's facts) -/
 
 def goodSites : ExpCfg :=
-  { isExpired := ⟨true, true⟩, shift := ⟨true, true⟩, select := ⟨true, true⟩, selectCap := ⟨true, true⟩,
+  { isExpired := ⟨true, true⟩, shift := ⟨true, true⟩, selectCap := ⟨true, true⟩,
     coldBuildNe0 := true, addBeaconsNe0 := true, saveBranchNe0 := true, reindexNe0 := true, patchReaddNe0 := true,
     filterGuard0 := true, isEmptyEq0 := true, setZeroNone := true, clearWins := true, wireGet := .gt0 }
 
@@ -158,8 +157,6 @@ structure Facts where
   isExpiredStrict : Tri
   shiftGuard0 : Tri
   shiftStrict : Tri
-  selectGuard0 : Tri
-  selectStrict : Tri
   selectCapGuard0 : Tri
   selectCapStrict : Tri
   coldBuildNe0 : Tri
@@ -178,7 +175,7 @@ structure Facts where
 
 def hasUnknown (f : Facts) : Bool :=
   f.isExpiredGuard0 == .unknown || f.isExpiredStrict == .unknown || f.shiftGuard0 == .unknown ||
-  f.shiftStrict == .unknown || f.selectGuard0 == .unknown || f.selectStrict == .unknown ||
+  f.shiftStrict == .unknown ||
   f.selectCapGuard0 == .unknown || f.selectCapStrict == .unknown || f.coldBuildNe0 == .unknown ||
   f.addBeaconsNe0 == .unknown || f.saveBranchNe0 == .unknown || f.reindexNe0 == .unknown ||
   f.patchReaddNe0 == .unknown || f.filterGuard0 == .unknown || f.isEmptyEq0 == .unknown ||
@@ -186,7 +183,7 @@ def hasUnknown (f : Facts) : Bool :=
 
 def cfgOf (f : Facts) : ExpCfg :=
   { isExpired := ⟨f.isExpiredGuard0.isYes, f.isExpiredStrict.isYes⟩, shift := ⟨f.shiftGuard0.isYes, f.shiftStrict.isYes⟩,
-    select := ⟨f.selectGuard0.isYes, f.selectStrict.isYes⟩, selectCap := ⟨f.selectCapGuard0.isYes, f.selectCapStrict.isYes⟩,
+    selectCap := ⟨f.selectCapGuard0.isYes, f.selectCapStrict.isYes⟩,
     coldBuildNe0 := f.coldBuildNe0.isYes, addBeaconsNe0 := f.addBeaconsNe0.isYes, saveBranchNe0 := f.saveBranchNe0.isYes,
     reindexNe0 := f.reindexNe0.isYes, patchReaddNe0 := f.patchReaddNe0.isYes, filterGuard0 := f.filterGuard0.isYes,
     isEmptyEq0 := f.isEmptyEq0.isYes, setZeroNone := f.setZeroNone.isYes, clearWins := f.clearWins.isYes,
